@@ -7,9 +7,14 @@ Theorems: lean/IofloModel/Props/C30.lean
 Tie:      four kinds of cases, each run through the REAL code of $IOFLO_REPO and through the model:
           chunk   packChunk(data) and parseChunk(packed + rest)
           header  packHeader lines and parseLeader of the block
-          request Requester(...).build() -> bytes; Requestant parse of those bytes; Valet.buildEnviron
+          request Requester(...).build() -> bytes (the Requester made directly or by a Patron that builds its own
+                  connector or is handed a plain / TLS one); Requestant parse of those bytes; buildEnviron of a real
+                  Valet constructed in every way (own transport or a supplied tcp Server / ServerTls, scheme given or
+                  derived), and what Valet and Porter settle on as scheme, TLS and port
           response a scripted WSGI application served by the real Responder (fake connection collecting .tx,
-                  fixed clock for the Date header) -> bytes; Respondent parse of those bytes
+                  fixed clock for the Date header) -> bytes; Respondent parse of those bytes; optionally a SECOND
+                  response behind it in the same buffer, parsed by the same Respondent driven the way Patron drives it:
+                  answers to HEAD, 204, 304 followed by another response on the connection
           plus a malformed stream (raw bytes to the three parsers).
 Oracle:   the round trip stated directly on the implementation's output, independent of the model.
 """
@@ -85,7 +90,11 @@ class CHECK(core.Check):
             "names in mixed case, latin-1 values with blanks, ':' and ',' inside, str/int/bytes values, "
             "duplicates), requests (all 9 methods, unicode paths with blanks and reserved characters, query names that "
             "are URL tokens with arbitrary unicode values, query inside the path, user headers, binary bodies, JSON "
-            "values, form args with arbitrary keys/values) and WSGI responses (Content-Length given / chunked / streamed "
+            "values, form args with arbitrary keys/values; server end: Valet/Porter building their own transport or handed a "
+            "plain/TLS one, scheme '', http, https, port given or default, incompatible pairs; client end: bare Requester or "
+            "Patron with own / supplied plain / supplied TLS connector) and WSGI responses — one, or two in a row on one "
+            "connection parsed by one reused Respondent; request method GET/POST/PUT/HEAD; statuses incl. 204 and 304 with "
+            "body-less applications — (Content-Length given / chunked / streamed "
             "until close / empty / HTTPError before and after the first write / return value / empty yields / pieces "
             "exceeding Content-Length); ~12% malformed stream (raw bytes to parseChunk, parseLeader, the request and "
             "response parsers). Non-trivial = a message was built and parsed back completely; distinct by content")
@@ -95,7 +104,10 @@ class CHECK(core.Check):
                "urllib.parse (urlsplit, quote, unquote, quote_plus, unquote_plus) enters the model as the parameter `Std`, "
                "instantiated from the calls the implementation made; json.dumps output is an input of the model",
                "oracle uses CPython's parse_qsl / json.loads as the reference readers of query strings, form bodies and JSON",
-               "the model describes Requester.build as repaired by fixes/D30a (form values quoted separately; integrated in /repo)"]
+               "the model describes Requester.build as repaired by fixes/D30a (form values quoted separately; integrated in /repo) "
+               "and a reused parser as repaired by fixes/D30b (jsoned reset per message)",
+               "the transports handed to Valet/Porter/Patron are the real tcp Server/ServerTls (constructed, never opened; one "
+               "shared TLS context) and the Client doubles of httpb_doubles"]
     PARTIAL = ["C30_built_request_roundtrip_partial: Requester.build's assembly (request line + packHeader line per entry + body) "
                "is proved to parse back, given that the entries' lines are well-formed header lines that frame the body; that "
                "buildParts chooses such entries (Content-Length exactly for a non-empty body) and that urlsplit/quote/unquote/"
@@ -117,7 +129,11 @@ class CHECK(core.Check):
                   "Respondent into the same status, reason, headers and body in each framing mode: Content-Length, chunked, "
                   "until close (C30_response_wire_length / _chunked / _until_close); the WSGI environment built from a parsed "
                   "request carries its method, path, query, scheme, body, Content-Type/Length and every header "
-                  "(C30_environ_consistent); and a WSGI application without Content-Length served by Responder.service is "
+                  "(C30_environ_consistent); however a Valet/Porter is constructed its scheme is https with TLS and port 443 "
+                  "or http without TLS and port 80, a supplied transport dictating which (C30_server_scheme), so that "
+                  "wsgi.url_scheme is http or https, https exactly for TLS (C30_valet_environ_scheme); a response without a body "
+                  "(HEAD, 204, 304) leaves what follows its head — after the chunk terminator if chunked — untouched for the "
+                  "next response (C30_response_wire_bodiless, C30_response_wire_chunked); and a WSGI application without Content-Length served by Responder.service is "
                   "read back by the client with the same status, headers and body (C30_responder_frames_chunked). Partial: "
                   "C30_built_request_roundtrip_partial (what Requester.build assembles parses back, given well-formed entries).")
     LEVEL_NOTE = ("Trusted: Lean kernel; axioms propext, Classical.choice, Quot.sound; the hand transcription of httping.py, "
@@ -199,6 +215,20 @@ class CHECK(core.Check):
                 "port": rng.choice([80, 8080, 443]), "scheme": rng.choice(["http", "https"]), "method": method,
                 "path": path, "pathq": pathq, "qargs": q2, "headers": headers, "body": "", "data": None, "fargs": None,
                 "has_data": False}
+        # every way of constructing the two ends: the server builds its own transport or is handed one (plain / TLS),
+        # with the scheme given or left to be derived; the request comes from a bare Requester or from a Patron that
+        # builds its own connector or is handed one
+        servant = rng.choice([None, None, "plain", "tls"])
+        sscheme = rng.choice(["", "", "http", "https"]) if servant is None else rng.choice(
+            ["", "", "https" if servant == "tls" else "http"])
+        if servant and rng.random() < 0.06:
+            sscheme = "http" if servant == "tls" else "https"          # incompatible with the servant: refused
+        case["server"] = {"servant": servant, "scheme": sscheme, "port": rng.choice([None, 8080])}
+        connector = rng.choice([None, None, "plain", "tls"])
+        case["client"] = {"via": rng.choice(["requester", "patron"]), "connector": connector,
+                          "scheme_given": rng.random() < 0.5}
+        if case["client"]["via"] == "patron" and connector:
+            case["scheme"] = "https" if connector == "tls" else "http"
         if mode == "body":
             case["body"] = bytes(rng.randrange(256) for _ in range(rng.choice([1, 2, 17, 300]))).hex()
         elif mode == "data":
@@ -211,23 +241,38 @@ class CHECK(core.Check):
             case["fargs"] = [[k, rng.choice(self.VALS)] for k in keys]
         return case
 
-    def _response(self, rng):
+    BODILESS = ("204", "304")
+
+    def _response(self, rng, follow=True):
+        """one exchange on a connection; with `next` the response that follows it on the same connection"""
+        case = self._response1(rng)
+        if follow and rng.random() < 0.5:
+            case["next"] = self._response1(rng)
+        return case
+
+    def _response1(self, rng):
         mode = rng.choice(["length", "length", "chunked", "chunked", "streamed", "empty", "error", "error-late", "over"])
         pieces = [bytes(rng.randrange(256) for _ in range(rng.choice([1, 2, 10, 200]))) for _ in range(rng.choice([1, 2, 3]))]
         if rng.random() < 0.3:
             pieces.insert(rng.randrange(len(pieces) + 1), b"")
-        total = b"".join(pieces)
         status = rng.choice(["200 OK", "201 Created", "404 Not Found", "500 Internal Server Error", "299 Custom  Reason",
-                             "200", "400 Bad Request"])
+                             "200", "400 Bad Request", "204 No Content", "304 Not Modified", "204"])
+        method = rng.choice(["GET", "GET", "POST", "PUT", "HEAD", "HEAD"])
+        if method == "HEAD" or status.split()[0] in self.BODILESS:
+            # a response without a body (answer to HEAD, 204, 304): the application produces no body bytes
+            pieces = [b""] * rng.choice([0, 1, 2])
+            mode = rng.choice(["chunked", "chunked", "empty", "length", "streamed", "error"])
+        total = b"".join(pieces)
         headers = [[self._hname(rng), self._hvalue(rng)] for _ in range(rng.choice([0, 1, 2]))]
         headers = [h for h in headers if h[0].lower() not in ("content-length", "transfer-encoding", "content-type", "a:b")]
         if rng.random() < 0.5:
             headers.append(["Content-Type", rng.choice(["text/plain", "application/json; charset=utf-8", "application/octet-stream"])])
         case = {"kind": "response", "mode": mode, "status": status, "headers": headers, "chunkable": True,
-                "method": rng.choice(["GET", "POST", "PUT"]), "items": [], "start": True}
+                "method": method, "items": [], "start": True}
         items = [["Y", p.hex()] for p in pieces]
         if mode == "length":
-            case["headers"].append(["Content-Length", str(len(total))])
+            # (in answer to HEAD the declared length is that of the body a GET would have had)
+            case["headers"].append(["Content-Length", str(len(total) if method != "HEAD" else rng.choice([0, 5, 1234]))])
         elif mode == "over":
             n = rng.randrange(len(total) + 1)
             case["headers"].append(["content-length", str(n)])
@@ -242,10 +287,10 @@ class CHECK(core.Check):
             case["start"] = rng.random() < 0.5
         elif mode == "error-late":
             items = items[:1] + [self._error(rng)] + items[1:]
-        if mode in ("chunked", "streamed", "length") and rng.random() < 0.2:
+        if mode in ("chunked", "streamed", "length") and rng.random() < 0.2 and total:
             ret = bytes(rng.randrange(256) for _ in range(3))
             items.append(["S", ret.hex()])
-            if mode == "length":
+            if mode == "length" and method != "HEAD":
                 case["headers"][-1][1] = str(len(total) + 3)
         case["items"] = items
         return case
@@ -324,6 +369,17 @@ class CHECK(core.Check):
                 yield {"kind": "response", "mode": "error", "status": "200 OK", "headers": [["X-A", "v"]], "chunkable": True,
                        "method": "GET", "start": start,
                        "items": [["E", 404, "", "T", "d", None, hdrs + [["X-Err", "1"]]]]}
+        for servant in (None, "plain", "tls"):
+            for sscheme in ("", "http", "https"):
+                for port in (None, 8080):
+                    for via, connector, given in (("requester", None, True), ("patron", None, True), ("patron", None, False),
+                                                  ("patron", "plain", False), ("patron", "tls", False), ("patron", "tls", True)):
+                        cs = "https" if connector == "tls" else "http"
+                        yield {"kind": "request", "host": "a.test", "port": 8080, "scheme": cs, "method": "POST",
+                               "path": "/a/b", "pathq": [], "qargs": [["x", "1"]], "headers": [], "body": "7061796c6f6164",
+                               "data": None, "fargs": None, "has_data": False,
+                               "server": {"servant": servant, "scheme": sscheme, "port": port},
+                               "client": {"via": via, "connector": connector, "scheme_given": given}}
         for m in METHODS:
             for mode in ("none", "body"):
                 yield {"kind": "request", "host": "a.test", "port": 80, "scheme": "http", "method": m, "path": "/p/é q",
@@ -385,10 +441,51 @@ class CHECK(core.Check):
             fmt_headers(q.headers.items()), "1" if q.chunked else "0", hx(bytes(q.body)), fmt_parms(q.parms),
             fmt_headers((q.trails or {}).items()), optbool(q.jsoned), "1" if q.persisted else "0", hx(bytes(q.msg)))
 
-    def _fmt_environ(self, scheme, q):
+    _CTX = []
+
+    @classmethod
+    def _ctx(cls):
+        """one TLS context for all the (never opened) TLS transports: building one per case is slow"""
+        if not cls._CTX:
+            import ssl
+            cls._CTX.append(ssl.create_default_context(purpose=ssl.Purpose.CLIENT_AUTH))
+        return cls._CTX[0]
+
+    @classmethod
+    def _servant(cls, sv, port):
+        """a transport constructed by the caller (never opened): the real tcp Server / ServerTls"""
+        from ioflo.aio import tcp
+        if sv is None:
+            return None
+        ha = ("127.0.0.1", port or (443 if sv == "tls" else 80))
+        return tcp.ServerTls(ha=ha, context=cls._ctx()) if sv == "tls" else tcp.Server(ha=ha)
+
+    def _servers(self, sv):
+        """what the two server constructors settle on: Valet's scheme, TLS flag and port, Porter's TLS flag and port"""
         from ioflo.aio.http import serving
-        fake = types.SimpleNamespace(scheme=scheme, servant=types.SimpleNamespace(name="srv", eha=("127.0.0.1", 8080)))
-        env = serving.Valet.buildEnviron(fake, q)
+        from ioflo.aio import tcp
+        kw = {} if sv["servant"] or sv["scheme"] != "https" else {"context": self._ctx()}
+        try:
+            v = serving.Valet(servant=self._servant(sv["servant"], sv["port"]), scheme=sv["scheme"], ha=("127.0.0.1", sv["port"]), **kw)
+            pt = serving.Porter(servant=self._servant(sv["servant"], sv["port"]), scheme=sv["scheme"], ha=("127.0.0.1", sv["port"]), **kw)
+        except ValueError as ex:
+            return err_name(ex)
+        tls = lambda x: "1" if isinstance(x.servant, tcp.ServerTls) else "0"
+        if (tls(v) == "1") != bool(v.secured) or (tls(pt) == "1") != bool(pt.secured):
+            return "HARNESS-EXC secured flag and transport type disagree"
+        return "ok %s %s %d P %s %d" % (hx(v.scheme), tls(v), v.servant.ha[1], tls(pt), pt.servant.ha[1])
+
+    def _fmt_environ(self, case, q):
+        from ioflo.aio.http import serving
+        sv = case.get("server")
+        if sv is None:       # cases recorded before the constructor paths were added
+            valet = types.SimpleNamespace(scheme=case["scheme"], servant=types.SimpleNamespace(name="srv", eha=("127.0.0.1", 8080)))
+            env = serving.Valet.buildEnviron(valet, q)
+        else:
+            kw = {} if sv["servant"] or sv["scheme"] != "https" else {"context": self._ctx()}
+            valet = serving.Valet(servant=self._servant(sv["servant"], sv["port"]), scheme=sv["scheme"],
+                                  ha=("127.0.0.1", sv["port"]), **kw)
+            env = valet.buildEnviron(q)
         keep = []
         for k, v in env.items():
             if k in ("wsgi.url_scheme", "REQUEST_METHOD", "SERVER_PROTOCOL", "SCRIPT_NAME", "PATH_INFO", "QUERY_STRING",
@@ -432,10 +529,27 @@ class CHECK(core.Check):
                     hdrs = odict()
                     for name, k, v in case["headers"]:
                         hdrs[name] = v if k == "s" else (int(v) if k == "i" else hb(v))
-                    r = hc.Requester(hostname=case["host"], port=case["port"], scheme=case["scheme"], method=case["method"],
-                                     path=case["path"], qargs=odict((k, v) for k, v in case["qargs"]), headers=hdrs,
-                                     body=hb(case["body"]), data=case["data"] if case["has_data"] else None,
-                                     fargs=None if case["fargs"] is None else odict((k, v) for k, v in case["fargs"]))
+                    kw = dict(method=case["method"],
+                              path=case["path"], qargs=odict((k, v) for k, v in case["qargs"]), headers=hdrs,
+                              body=hb(case["body"]), data=case["data"] if case["has_data"] else None,
+                              fargs=None if case["fargs"] is None else odict((k, v) for k, v in case["fargs"]))
+                    cl = case.get("client") or {"via": "requester"}
+                    if cl["via"] == "patron":
+                        # the Patron constructs the Requester: from hostname/port/scheme, or from the connector handed in
+                        net = D.Net({"a.test": "10.0.0.1", "localhost": "127.0.0.1"})
+                        with D.patched(net) as (C, T):
+                            if cl["connector"]:
+                                kw["connector"] = (T if cl["connector"] == "tls" else C)(host=case["host"], port=case["port"])
+                                if cl["scheme_given"]:
+                                    kw["scheme"] = case["scheme"]
+                            else:
+                                kw.update(hostname=case["host"], port=case["port"])
+                                if cl["scheme_given"] or case["scheme"] == "https":
+                                    kw["scheme"] = case["scheme"]
+                            r = hc.Patron(**kw).requester
+                        info["requester"] = (r.hostname, r.port, r.scheme)
+                    else:
+                        r = hc.Requester(hostname=case["host"], port=case["port"], scheme=case["scheme"], **kw)
                     info["headers_after_init"] = list(r.headers.items())
                     msg = r.build()
                     lines.append("ok %s %s Q %s" % (hx(msg), hx(r.path), fmt_headers((k, str(v)) for k, v in r.qargs.items())))
@@ -447,9 +561,13 @@ class CHECK(core.Check):
                         q = self._parse_request(msg)
                         lines.append(self._fmt_request(q))
                         if q.ended and not q.errored:
-                            l, env = self._fmt_environ(case["scheme"], q)
-                            lines.append(l)
-                            info["q"], info["env"] = q, env
+                            info["q"] = q
+                            try:
+                                l, env = self._fmt_environ(case, q)
+                                lines.append(l)
+                                info["env"] = env
+                            except Exception as ex:
+                                lines.append(err_name(ex))
                         else:
                             lines.append(lines[-1])
                     except Exception as ex:
@@ -457,37 +575,89 @@ class CHECK(core.Check):
                         lines.append(err_name(ex))
                 else:
                     lines += ["skipped", "skipped"]
+                if case.get("server"):
+                    lines.append(self._servers(case["server"]))
             elif kind == "rawreq":
                 try:
                     lines.append(self._fmt_request(self._parse_request(hb(case["raw"]))))
                 except Exception as ex:
                     lines.append(err_name(ex))
             elif kind == "response":
-                out = None
-                try:
-                    out, ended = self._serve(case)
-                    lines.append("ok %s %s" % ("1" if ended else "0", hx(out)))
-                    info["wire"], info["ended"] = out, ended
-                except Exception as ex:
-                    lines.append(err_name(ex))
-                if out is not None:
-                    head = out.split(b"\r\n\r\n")[0].lower()
-                    closed = b"\r\ncontent-length:" not in head and b"\r\ntransfer-encoding: chunked" not in head
-                    info["closed"] = closed
-                    try:
-                        p = self._parse_response(out, case["method"], closed)
-                        lines.append(self._fmt_response(p))
-                        info["p"] = p
-                    except Exception as ex:
-                        lines.append(err_name(ex))
-                else:
-                    lines.append("skipped")
+                self._run_responses(case, lines, info)
             elif kind == "rawresp":
                 try:
                     lines.append(self._fmt_response(self._parse_response(hb(case["raw"]), case["method"], case["closed"])))
                 except Exception as ex:
                     lines.append(err_name(ex))
         return lines, self._std_lines(calls), info
+
+    @staticmethod
+    def _until_close(wire):
+        head = wire.split(b"\r\n\r\n")[0].lower()
+        return b"\r\ncontent-length:" not in head and b"\r\ntransfer-encoding: chunked" not in head
+
+    @staticmethod
+    def _snap(p):
+        return types.SimpleNamespace(status=p.status, reason=p.reason, headers=dict(p.headers.items()), body=bytes(p.body),
+                                     msg=bytes(p.msg), ended=p.ended, errored=p.errored, jsoned=p.jsoned)
+
+    def _run_responses(self, case, lines, info):
+        """the response (and the one that follows it on the same connection, if any) written by the real Responder;
+        all of it is in the client's buffer; ONE Respondent parses the responses one after the other the way Patron
+        drives it (makeParser after each response, reinit(method=…) for the next request)"""
+        from ioflo.aio.http import clienting as hc
+        seq = [case] + ([case["next"]] if case.get("next") else [])
+        wires = []
+        for c in seq:
+            try:
+                out, ended = self._serve(c)
+                wires.append((out, ended, None))
+            except Exception as ex:
+                wires.append((None, False, err_name(ex)))
+        info["wires"] = wires
+        out, ended, err = wires[0]
+        lines.append(err if err else "ok %s %s" % ("1" if ended else "0", hx(out)))
+        if out is None:
+            lines.append("skipped")
+            return
+        closed = self._until_close(out)
+        follow = len(seq) > 1 and not closed and ended and wires[1][0] is not None
+        info["closed"], info["follow"] = closed, follow
+        raw = out + (wires[1][0] if follow else b"")
+        info["raw1"] = raw
+        p = None
+        try:
+            p = self._parse_response(raw, case["method"], closed)
+            lines.append(self._fmt_response(p))
+            info["p"] = self._snap(p)
+        except Exception as ex:
+            lines.append(err_name(ex))
+        if not follow:
+            return
+        out2, ended2, _ = wires[1]
+        lines.append("ok %s %s" % ("1" if ended2 else "0", hx(out2)))
+        if p is None or not p.ended:
+            lines.append("skipped")
+            return
+        closed2 = self._until_close(out2)
+        info["closed2"], info["rest1"] = closed2, bytes(p.msg)
+        try:
+            p.makeParser()
+            p.reinit(method=seq[1]["method"])
+            for _ in range(3):
+                p.parse()
+                if p.ended:
+                    break
+            if not p.ended and closed2:
+                p.close()
+                for _ in range(3):
+                    p.parse()
+                    if p.ended:
+                        break
+            lines.append(self._fmt_response(p))
+            info["p2"] = self._snap(p)
+        except Exception as ex:
+            lines.append(err_name(ex))
 
     def _parse_chunk(self, raw):
         from ioflo.aio.http import httping
@@ -527,7 +697,7 @@ class CHECK(core.Check):
         saved = serving.datetime
         serving.datetime = _FakeDatetimeModule
         try:
-            r = serving.Responder(incomer=conn, app=app, environ={}, chunkable=case["chunkable"])
+            r = serving.Responder(incomer=conn, app=app, environ={"REQUEST_METHOD": case["method"]}, chunkable=case["chunkable"])
             for _ in range(len(items) + 3):
                 if r.ended:
                     break
@@ -602,37 +772,55 @@ class CHECK(core.Check):
             if case["has_data"]:
                 js = hx(json.dumps(case["data"], separators=(",", ":")))
             fa = "~" if case["fargs"] is None else "%d %s" % (len(case["fargs"]), " ".join("%s %s" % (hx(k), hx(v)) for k, v in case["fargs"]))
+            rhost, rport, rscheme = info.get("requester") or (case["host"], case["port"], case["scheme"])
             out.append(("build %s %d %s %s %s - %s %s Q %d %s H %d %s F %s" % (
-                hx(case["host"]), case["port"], hx(case["scheme"]), hx(case["method"].upper()), hx(case["path"]),
+                hx(rhost), rport, hx(rscheme), hx(case["method"].upper()), hx(case["path"]),
                 case["body"] or "-", js, len(case["qargs"]), " ".join("%s %s" % (hx(k), hx(v)) for k, v in case["qargs"]),
                 len(hdrs), hs, fa)).replace("  ", " ").strip())
             if "msg" in info:
                 out.append("parsereq %s" % hx(info["msg"]))
-                out.append("environ %s %s" % (hx(case["scheme"]), hx(info["msg"])))
+                sv = case.get("server")
+                if sv is None:
+                    out.append("environ %s %s" % (hx(case["scheme"]), hx(info["msg"])))
+                else:
+                    svt = "~" if sv["servant"] is None else ("1" if sv["servant"] == "tls" else "0")
+                    out.append("valetenviron %s %s %s" % (svt, hx(sv["scheme"]), hx(info["msg"])))
+            if case.get("server"):
+                sv = case["server"]
+                svt = "~" if sv["servant"] is None else ("1" if sv["servant"] == "tls" else "0")
+                out.append("server %s %s %s" % (svt, hx(sv["scheme"]), "~" if sv["port"] is None else sv["port"]))
         elif kind == "rawreq":
             out.append("parsereq %s" % (case["raw"] or "-"))
         elif kind == "response":
-            start = "~" if not case["start"] else "%s %d %s" % (hx(case["status"]), len(case["headers"]),
-                                                                 " ".join("%s %s" % (hx(k), hx(v)) for k, v in case["headers"]))
-            items = []
-            for it in case["items"]:
-                if it[0] in ("Y", "S"):
-                    items.append("%s %s" % (it[0], it[1] or "-"))
-                elif it[0] == "X":
-                    items.append("X")
-                else:
-                    _, status, reason, title, detail, fault, hdrs = it
-                    from ioflo.aio.http import httping
-                    reason_eff = httping.HTTPError(status, reason=reason).reason
-                    items.append("E %d %s %s %s %s %d %s" % (status, hx(reason_eff), hx(title), hx(detail),
-                                                             "~" if fault is None else fault, len(hdrs),
-                                                             " ".join("%s %s" % (hx(k), hx(v)) for k, v in hdrs)))
-            out.append(("respond %d %s %s %s" % (1 if case["chunkable"] else 0, hx(DATE), start, " ".join(items))).replace("  ", " ").strip())
-            if "wire" in info:
-                out.append("parseresp %s %d %s" % (hx(case["method"]), 1 if info["closed"] else 0, hx(info["wire"])))
+            out.append(self._respond_line(case))
+            if info.get("raw1") is not None:
+                out.append("parseresp %s %d %s" % (hx(case["method"]), 1 if info["closed"] else 0, hx(info["raw1"])))
+            if info.get("follow"):
+                nxt = case["next"]
+                out.append(self._respond_line(nxt))
+                if "rest1" in info:      # the second parse starts from what the implementation's first parse left
+                    out.append("parseresp %s %d %s" % (hx(nxt["method"]), 1 if info["closed2"] else 0, hx(info["rest1"])))
         elif kind == "rawresp":
             out.append("parseresp %s %d %s" % (hx(case["method"]), 1 if case["closed"] else 0, case["raw"] or "-"))
         return out
+
+    def _respond_line(self, case):
+        start = "~" if not case["start"] else "%s %d %s" % (hx(case["status"]), len(case["headers"]),
+                                                             " ".join("%s %s" % (hx(k), hx(v)) for k, v in case["headers"]))
+        items = []
+        for it in case["items"]:
+            if it[0] in ("Y", "S"):
+                items.append("%s %s" % (it[0], it[1] or "-"))
+            elif it[0] == "X":
+                items.append("X")
+            else:
+                _, status, reason, title, detail, fault, hdrs = it
+                from ioflo.aio.http import httping
+                reason_eff = httping.HTTPError(status, reason=reason).reason
+                items.append("E %d %s %s %s %s %d %s" % (status, hx(reason_eff), hx(title), hx(detail),
+                                                         "~" if fault is None else fault, len(hdrs),
+                                                         " ".join("%s %s" % (hx(k), hx(v)) for k, v in hdrs)))
+        return ("respond %d %s %s %s" % (1 if case["chunkable"] else 0, hx(DATE), start, " ".join(items))).replace("  ", " ").strip()
 
     def _model_packed_chunk(self, case):
         data = hb(case["data"])
@@ -644,12 +832,23 @@ class CHECK(core.Check):
             k += 1
         out = list(replies[k:])
         if case["kind"] == "request":
+            server = None
+            if case.get("server") and out:
+                server = out.pop()           # the model has one decision function for Valet and Porter
+                t = server.split()
+                if t[0] == "ok":
+                    server = "ok %s %s %s P %s %s" % (t[1], t[2], t[3], t[2], t[3])
             while len(out) < 3:
                 out.append("skipped" if len(out) < 2 or not out[0].startswith("ok") else out[-1])
             if len(out) == 3 and not out[1].startswith("ok"):
                 out[2] = out[1]
-        if case["kind"] == "response" and len(out) < 2:
-            out.append("skipped")
+            if server is not None:
+                out.append(server)
+        if case["kind"] == "response":
+            if len(out) < 2:
+                out.append("skipped")
+            if len(out) == 3:
+                out.append("skipped")
         return out
 
     # ------------------------------------------------------------------ oracle
@@ -744,11 +943,30 @@ class CHECK(core.Check):
             want_body = hb(case["body"])
         if body != want_body:
             return "body %r parsed as %r" % (want_body[:40], body[:40])
+        # the two ends as constructed
+        sv, cl = case.get("server"), case.get("client") or {}
+        want_scheme = case["scheme"]
+        if sv is not None:
+            tls = sv["servant"] == "tls" if sv["servant"] else sv["scheme"] == "https"
+            want_scheme = "https" if tls else "http"
+            if sv["servant"] and sv["scheme"] and sv["scheme"] != want_scheme:
+                if out[3] == "err ValueError" and out[2] == "err ValueError":
+                    return None          # a scheme that contradicts the supplied transport is refused
+                return "servant %s accepted with scheme %r: %s" % (sv["servant"], sv["scheme"], out[3])
+            port = sv["port"] or (443 if tls else 80)
+            want = "ok %s %d %d P %d %d" % (hx(want_scheme), tls, port, tls, port)
+            if out[3] != want:
+                return "Valet/Porter(servant=%s, scheme=%r, port=%r) settle on %s, expected %s (scheme tls port)" % (
+                    sv["servant"], sv["scheme"], sv["port"], out[3], want)
+        if cl.get("via") == "patron" and cl.get("connector"):
+            if q.headers.get("host") != "%s:%d" % (case["host"], case["port"]):
+                return "request built by a Patron over a supplied connector has Host %r, connector is %s:%d" % (
+                    q.headers.get("host"), case["host"], case["port"])
         # the WSGI environment is consistent with the request
         if env is None:
             return "no WSGI environment"
         env_in = env["wsgi.input"].getvalue()
-        checks = [("REQUEST_METHOD", method), ("PATH_INFO", path), ("wsgi.url_scheme", case["scheme"]),
+        checks = [("REQUEST_METHOD", method), ("PATH_INFO", path), ("wsgi.url_scheme", want_scheme),
                   ("SERVER_PROTOCOL", "HTTP/1.1"), ("CONTENT_LENGTH", str(len(body))),
                   ("CONTENT_TYPE", q.headers.get("content-type", ""))]
         for k, v in checks:
@@ -766,21 +984,37 @@ class CHECK(core.Check):
     def _oracle_response(self, case, out):
         key = core.case_key(case)
         info = self._trace.get(key, (None, None, {}))[2]
+        wires = info.get("wires") or []
+        follow = info.get("follow")
+        # what must be left in the buffer after the first response: exactly the bytes of the response that follows
+        rest = wires[1][0] if follow else b""
+        why = self._judge_response(case, out[0], out[1], info.get("p"), rest)
+        if why == "no-opinion":
+            return None
+        if why:
+            return why
+        if follow:
+            nxt = case["next"]
+            why = self._judge_response(nxt, out[2], out[3], info.get("p2"), b"")
+            if why and why != "no-opinion":
+                return "after the %s response to %s, the next response on the connection: %s" % (
+                    case["status"].split()[0], case["method"], why)
+        return None
+
+    def _judge_response(self, case, serve_line, parse_line, p, rest):
         items = case["items"]
         if not case["start"] and not (items and [i for i in items if i[0] != "Y" or i[1]][:1] and
                                       [i for i in items if i[0] != "Y" or i[1]][0][0] == "E"):
-            return None                  # an application that never calls start_response: not a WSGI response
-        if not out[0].startswith("ok"):
-            return "Responder failed: %s" % out[0]
-        if out[0].split()[1] != "1":
-            return None                  # the application promised more bytes than it produced: no complete response
-        p = info.get("p")
-        if p is None or not out[1].startswith("ok"):
-            return "the client could not parse the response: %s" % out[1]
+            return "no-opinion"          # an application that never calls start_response: not a WSGI response
+        if not serve_line.startswith("ok"):
+            return "Responder failed: %s" % serve_line
+        if serve_line.split()[1] != "1":
+            return "no-opinion"          # the application promised more bytes than it produced: no complete response
         # what the application said
         first = [i for i in items if i[0] != "Y" or i[1]]
         status, headers, body = case["status"], list(case["headers"]), b""
-        if first and first[0][0] == "E":
+        is_error = bool(first and first[0][0] == "E")
+        if is_error:
             from ioflo.aio.http import httping
             _, st, reason, title, detail, fault, hdrs = first[0]
             ex = httping.HTTPError(st, reason=reason, title=title, detail=detail, fault=fault, headers=hdrs)
@@ -797,9 +1031,16 @@ class CHECK(core.Check):
                 else:
                     break                # an error after the head went out ends the body there
             cl = [v for k, v in headers if k.lower() == "content-length"]
-            if cl:
+            if cl and case["method"] != "HEAD":
+                if int(cl[-1]) > len(body) and int(status.split()[0]) not in (204, 304):
+                    return "no-opinion"      # the application promised more bytes than it produced
                 body = body[:int(cl[-1])]
+        if p is None or not parse_line.startswith("ok"):
+            return "the client could not parse the response: %s" % parse_line
         code = int(status.split()[0])
+        bodiless = case["method"] == "HEAD" or code in (204, 304)
+        if bodiless and body:
+            return "no-opinion"          # a body where HTTP allows none (an HTTPError page in answer to HEAD): no demand
         if p.status != code:
             return "status %r parsed as %r" % (status, p.status)
         if " ".join(status.split()[1:]) != " ".join(p.reason.split()):
@@ -807,7 +1048,7 @@ class CHECK(core.Check):
         want_h = {}
         for k, v in headers:
             want_h[k.lower()] = v
-        if first and first[0][0] == "E":
+        if is_error:
             # rules for a raised HTTPError: the error's own Content-Type (in any spelling) wins, text/plain is only the
             # default; Content-Length is that of the rendered body
             want_h.setdefault("content-type", "text/plain")
@@ -815,10 +1056,13 @@ class CHECK(core.Check):
         for k, v in want_h.items():
             if p.headers.get(k) != v:
                 return "header %r: %r parsed as %r" % (k, v, p.headers.get(k))
-        if bytes(p.body) != body:
-            return "body %r (%d bytes) parsed as %r (%d bytes)" % (body[:30], len(body), bytes(p.body)[:30], len(p.body))
-        if bytes(p.msg):
-            return "%d bytes left over after the response" % len(p.msg)
+        if "content-type" not in want_h and p.jsoned:
+            return "a response without Content-Type is taken for JSON (jsoned=%r)" % p.jsoned
+        if p.body != body:
+            return "body %r (%d bytes) parsed as %r (%d bytes)" % (body[:30], len(body), p.body[:30], len(p.body))
+        if p.msg != rest:
+            return "after the response %d bytes are left in the buffer (%r…), the next response is %d bytes" % (
+                len(p.msg), p.msg[:12], len(rest))
         return None
 
     # ------------------------------------------------------------------ bookkeeping
@@ -831,13 +1075,13 @@ class CHECK(core.Check):
         if k == "request":
             return out[0].startswith("ok") and out[1].startswith("ok")
         if k == "response":
-            return out[0].startswith("ok 1") and out[1].startswith("ok")
+            return out[0].startswith("ok 1") and out[1].startswith("ok") and (len(out) < 4 or out[3].startswith("ok"))
         return False
 
     def bucket(self, case, out):
         k = case["kind"]
         if k == "response":
-            return "response:" + case["mode"] + ("" if out[-1].startswith("ok") else ":" + out[-1].split()[0] + out[-1][3:12])
+            return "response:" + ("HEAD:" if case["method"] == "HEAD" else "") + case["status"].split()[0][:1] + ("+next:" if case.get("next") else ":") + case["mode"] + ("" if out[-1].startswith("ok") else ":" + out[-1].split()[0] + out[-1][3:12])
         if k == "request":
             mode = "data" if case["has_data"] else ("fargs" if case["fargs"] is not None else ("body" if case["body"] else "none"))
             return "request:" + mode
@@ -866,6 +1110,11 @@ class CHECK(core.Check):
             if len(case["path"]) > 2 and not case["pathq"]:
                 d = json.loads(json.dumps(case)); d["path"] = "/p"; yield d
         elif k == "response":
+            if case.get("next"):
+                d = json.loads(json.dumps(case)); del d["next"]; yield d
+                yield json.loads(json.dumps(case["next"]))
+                for sub in self.shrink_candidates(case["next"]):
+                    d = json.loads(json.dumps(case)); d["next"] = sub; yield d
             for i in range(len(case["items"])):
                 d = json.loads(json.dumps(case)); del d["items"][i]; yield d
             for i in range(len(case["headers"])):
